@@ -201,3 +201,16 @@ package prelude
 //@   trusted
 //@   modifies nothing
 //@   ensures str(result) == gf(b, content, string)
+
+//@ package bytes
+//@ func (*Buffer).Len
+//@   trusted
+//@   modifies nothing
+//@ func (*Buffer).String
+//@   trusted
+//@   modifies nothing
+//@   ensures result == gf(b, content, string)
+//@ func (*Buffer).Truncate
+//@   trusted
+//@   modifies gf(b, content, string)
+//@   ensures n == 0 ==> gf(b, content, string) == ""
